@@ -181,6 +181,9 @@ func (f *Frame) expr(st *State, e ast.Expr) Term {
 		if obj == nil {
 			vc.fail(e.Pos(), "unresolved identifier %s", e.Name)
 		}
+		if fn, isFn := obj.(*types.Func); isFn {
+			return f.namedFuncValue(st, fn)
+		}
 		if isStructValue(obj.Type()) {
 			vc.fail(e.Pos(), "struct value %s used as a whole (only its fields are supported)", e.Name)
 		}
@@ -215,7 +218,7 @@ func (f *Frame) expr(st *State, e ast.Expr) Term {
 					key := "G:" + o.Pkg().Name() + "." + o.Name()
 					return vc.heapGet(st, key, f.sortOf(o.Type()))
 				case *types.Func:
-					vc.fail(e.Pos(), "function value %s is not supported", o.Name())
+					return f.namedFuncValue(st, o)
 				}
 			}
 		}
@@ -758,6 +761,9 @@ func (f *Frame) store(st *State, l Loc, v Term, pos token.Pos) {
 func (f *Frame) allocStruct(st *State, cl *ast.CompositeLit) Term {
 	vc := f.vc
 	t := f.typeOf(cl)
+	if pt, isPtr := t.Underlying().(*types.Pointer); isPtr {
+		t = pt.Elem() // elided &T{...} element of a []*T literal
+	}
 	stt, ok := t.Underlying().(*types.Struct)
 	if !ok {
 		vc.fail(cl.Pos(), "&composite literal of non-struct type")
@@ -930,7 +936,15 @@ func (f *Frame) appendTerm(st *State, call *ast.CallExpr) Term {
 		v := f.convert(f.expr(st, a), f.typeOf(a), et)
 		arr = Store(arr, app(SInt, "+", n, IntLit(int64(k))), v)
 	}
-	return vc.define("app", MkSlice(arr, app(SInt, "+", n, IntLit(int64(len(call.Args)-1)))))
+	res := vc.define("app", MkSlice(arr, app(SInt, "+", n, IntLit(int64(len(call.Args)-1)))))
+	if vc.quantDepth == 0 && res.S != s.S && strings.HasPrefix(s.S, "(") == false {
+		// (redundant, follows from the array axioms) the old elements are still there: stated with a trigger on the
+		// OLD slice so that facts about s[j] carry over to append(s, x)[j] under trigger-based instantiation
+		i := Term{"i!", SInt}
+		vc.assume(st, Forall([]Term{i}, Imp(And(app(SBool, "<=", IntLit(0), i), app(SBool, "<", i, n)),
+			Eq(Select(SArr(res), i), Select(SArr(s), i))), Select(SArr(s), i)))
+	}
+	return res
 }
 
 // ------------------------------------------------------------ helpers
